@@ -120,3 +120,128 @@ Proof.
     apply andb_true_iff in Dc. destruct Dc as [Lo _]. apply N.leb_le in Lo. apply N.eqb_neq. unfold ch_plus. lia. }
   rewrite Hc, AD, V, Hv. reflexivity.
 Qed.
+
+(** * Display output parses back: from_str (to_string a) = a whenever decimals <= 28 *)
+Lemma of_digits_ge : forall ds a, a <= of_digits a ds.
+Proof.
+  induction ds as [|d r IH]; intros a; cbn [of_digits]; [lia|].
+  etransitivity; [|apply IH]. lia.
+Qed.
+
+Lemma is_digit_range : forall c, is_digit c = true -> 48 <= c <= 57.
+Proof. intros c H. unfold is_digit in H. apply andb_true_iff in H. destruct H as [A B]. apply N.leb_le in A, B. lia. Qed.
+
+(** digits before the point *)
+Lemma parse_body_int : forall r c rest has m sc,
+  all_digits (c :: r) = true -> of_digits m (c :: r) < M96 ->
+  parse_body ((c :: r) ++ rest) has false m sc = parse_body rest true false (of_digits m (c :: r)) 0.
+Proof.
+  induction r as [|c' r IH]; intros c rest has m sc AD Hb.
+  - cbn [all_digits] in AD. apply andb_true_iff in AD. destruct AD as [Dc _].
+    cbn [app parse_body of_digits] in *. rewrite Dc.
+    destruct (N.leb_spec M96 (m * 10 + (c - ch_0))); [lia|]. cbn [andb]. reflexivity.
+  - cbn [all_digits] in AD. apply andb_true_iff in AD. destruct AD as [Dc AD'].
+    change ((c :: c' :: r) ++ rest) with (c :: ((c' :: r) ++ rest)).
+    cbn [parse_body]. rewrite Dc.
+    assert (Hm : m * 10 + (c - ch_0) < M96).
+    { eapply N.le_lt_trans; [|exact Hb]. cbn [of_digits]. apply (of_digits_ge (c' :: r)). }
+    destruct (N.leb_spec M96 (m * 10 + (c - ch_0))); [lia|]. cbn [andb].
+    rewrite (IH c' rest true (m * 10 + (c - ch_0)) 0 AD'); [reflexivity|]. exact Hb.
+Qed.
+
+(** digits after the point, up to the end of the string *)
+Lemma parse_body_frac : forall ds m sc,
+  all_digits ds = true -> of_digits m ds < M96 -> sc + N.of_nat (length ds) <= 28 ->
+  parse_body ds true true m sc = Some (of_digits m ds, sc + N.of_nat (length ds)).
+Proof.
+  induction ds as [|c r IH]; intros m sc AD Hb Hs.
+  - cbn [parse_body of_digits length]. rewrite N.add_0_r. reflexivity.
+  - cbn [all_digits] in AD. apply andb_true_iff in AD. destruct AD as [Dc AD'].
+    cbn [parse_body]. rewrite Dc.
+    assert (Hm : m * 10 + (c - ch_0) < M96).
+    { eapply N.le_lt_trans; [|exact Hb]. cbn [of_digits]. apply of_digits_ge. }
+    destruct (N.leb_spec M96 (m * 10 + (c - ch_0))); [lia|].
+    cbn [length] in Hs.
+    assert (Chk : (true && (28 <=? sc + 1) && negb match r with [] => true | _ :: _ => false end) = false).
+    { destruct r; [rewrite andb_false_r; reflexivity|]. cbn [length] in Hs.
+      destruct (N.leb_spec 28 (sc + 1)); [lia|]. reflexivity. }
+    rewrite Chk. rewrite (IH (m * 10 + (c - ch_0)) (sc + 1) AD'); [|exact Hb|lia].
+    cbn [of_digits length]. f_equal. f_equal. lia.
+Qed.
+
+Lemma all_digits_repeat : forall n, all_digits (repeat ch_0 n) = true.
+Proof. induction n; [reflexivity|]. cbn [repeat all_digits]. rewrite IHn. reflexivity. Qed.
+
+Lemma of_digits_zeros : forall n a, a = 0 -> of_digits a (repeat ch_0 n) = 0.
+Proof. induction n; intros a ->; [reflexivity|]. cbn [repeat of_digits]. apply IHn. reflexivity. Qed.
+
+Lemma rescale_same : forall v d, v <= U64MAX -> d <= 28 -> rescale_exact false v d d = Some {| amt_value := v; amt_decimals := d |}.
+Proof.
+  intros v d Hv Hd. unfold rescale_exact.
+  destruct (N.ltb_spec 28 d); [lia|].
+  destruct (N.eqb_spec v 0) as [->|Hne]; [reflexivity|].
+  destruct (N.leb_spec d d); [|lia]. rewrite N.sub_diag. change (10 ^ 0) with 1. rewrite N.mul_1_r.
+  assert (E1 : (M96 <=? v) = false) by (apply N.leb_gt; unfold M96; unfold U64MAX in Hv; change (2 ^ 96) with 79228162514264337593543950336; lia).
+  assert (E2 : (U64MAX <? v) = false) by (apply N.ltb_ge; exact Hv).
+  rewrite E1, E2. reflexivity.
+Qed.
+
+Lemma parse_decimal_digit_first : forall c s, is_digit c = true ->
+  parse_decimal (c :: s) =
+  match parse_body (c :: s) false false 0 0 with Some (m, sc) => Some (false, m, sc) | None => None end.
+Proof.
+  intros c s D. apply is_digit_range in D. unfold parse_decimal.
+  assert (Em : (c =? ch_minus) = false) by (apply N.eqb_neq; unfold ch_minus; lia).
+  assert (Ep : (c =? ch_plus) = false) by (apply N.eqb_neq; unfold ch_plus; lia).
+  rewrite Em, Ep. reflexivity.
+Qed.
+
+Theorem display_roundtrip : forall a, amount_ok a = true -> amt_decimals a <= 28 ->
+  from_str_exact (to_string a) (amt_decimals a) = Some a.
+Proof.
+  intros [v dec] H Hd. unfold amount_ok in H. cbn [amt_value amt_decimals] in *.
+  apply andb_true_iff in H. destruct H as [Hv _]. apply N.leb_le in Hv.
+  assert (HvM : v < M96) by (unfold M96; unfold U64MAX in Hv; change (2 ^ 96) with 79228162514264337593543950336; lia).
+  destruct (digits_spec v) as (c & r0 & E & AD & V).
+  unfold from_str_exact, to_string. cbn [amt_value amt_decimals]. rewrite E.
+  destruct (N.eqb_spec dec 0) as [->|Hne].
+  - (* no point *)
+    assert (Dc : is_digit c = true) by (cbn [all_digits] in AD; apply andb_true_iff in AD; tauto).
+    rewrite (parse_decimal_digit_first c r0 Dc).
+    pose proof (parse_body_int r0 c [] false 0 0 AD) as P. rewrite app_nil_r, V in P.
+    rewrite (P HvM). cbn [parse_body]. apply rescale_same; [exact Hv|lia].
+  - set (d := N.to_nat dec). set (ds := c :: r0) in *.
+    set (padded := repeat ch_0 (S d - length ds) ++ ds).
+    set (k := (length padded - d)%nat).
+    assert (Lp : (S d <= length padded)%nat) by (unfold padded; rewrite app_length, repeat_length; lia).
+    assert (ADp : all_digits padded = true) by (unfold padded; rewrite all_digits_app, all_digits_repeat, AD; reflexivity).
+    assert (Vp : of_digits 0 padded = v).
+    { unfold padded. rewrite of_digits_app, (of_digits_zeros _ 0 eq_refl). exact V. }
+    assert (Split : firstn k padded ++ skipn k padded = padded) by apply firstn_skipn.
+    assert (LI : length (firstn k padded) = k) by (apply firstn_length_le; unfold k; lia).
+    assert (LF : length (skipn k padded) = d) by (rewrite skipn_length; unfold k; lia).
+    remember (firstn k padded) as I eqn:EI. remember (skipn k padded) as F eqn:EF.
+    assert (ADIF : all_digits I = true /\ all_digits F = true).
+    { rewrite <- Split, all_digits_app in ADp. apply andb_true_iff in ADp. exact ADp. }
+    destruct ADIF as [ADI ADF].
+    destruct I as [|c1 I']; [cbn [length] in LI; unfold k in LI; lia|].
+    assert (Dc : is_digit c1 = true) by (cbn [all_digits] in ADI; apply andb_true_iff in ADI; tauto).
+    assert (VI : of_digits (of_digits 0 (c1 :: I')) F = v) by (rewrite <- of_digits_app, Split; exact Vp).
+    assert (BI : of_digits 0 (c1 :: I') < M96).
+    { eapply N.le_lt_trans; [apply (of_digits_ge F)|]. rewrite VI. exact HvM. }
+    change ((c1 :: I') ++ ch_dot :: F) with (c1 :: (I' ++ ch_dot :: F)).
+    rewrite (parse_decimal_digit_first c1 _ Dc).
+    change (c1 :: I' ++ ch_dot :: F) with ((c1 :: I') ++ ch_dot :: F).
+    rewrite (parse_body_int I' c1 (ch_dot :: F) false 0 0 ADI BI).
+    cbn [parse_body]. change (is_digit ch_dot) with false. change ((ch_dot =? ch_dot) && negb false) with true. cbv iota.
+    rewrite (parse_body_frac F (of_digits 0 (c1 :: I')) 0 ADF); [|rewrite VI; exact HvM|rewrite LF; unfold d; lia].
+    rewrite VI, LF. unfold d. rewrite N2Nat.id, N.add_0_l. apply rescale_same; assumption.
+Qed.
+
+(** ... and for more than 28 decimals the string form cannot be parsed back at all (rust_decimal's
+    maximal scale): a rejection, never a different amount *)
+Theorem display_beyond_scale_rejected : forall s d, 28 < d -> from_str_exact s d = None.
+Proof.
+  intros s d H. unfold from_str_exact. destruct (parse_decimal s) as [[[neg m] sc]|]; [|reflexivity].
+  unfold rescale_exact. destruct (N.ltb_spec 28 d); [reflexivity|lia].
+Qed.
